@@ -100,6 +100,8 @@ def render_fifo(cfg):
         f"    got_data = Port.output(Unsigned[{w}], default=0)",
         "    v_empty = Port.output(Bit)",
         "    v_full = Port.output(Bit)",
+        "    ps_empty = Port.output(Bit, default=False)",
+        "    cs_full = Port.output(Bit, default=False)",
         "",
         "    def architecture(self):",
         "        clk = std.Clock(self.clk)",
@@ -120,12 +122,14 @@ def render_fifo(cfg):
         "            self.v_full <<= fifo.full()",
     ]
     prod = [
+        "self.ps_empty <<= fifo.empty()",  # the SENDER's view of empty (registered in every producer step)
         "if self.p_try and not fifo.full():",
         "    self.att ^= True",
         "    self.att_data <<= self.p_data",
         f"    fifo.push({enc.format(x='self.p_data')})",
     ]
     cons = [
+        "self.cs_full <<= fifo.full()",  # the RECEIVER's view of full
         "if self.c_take and not fifo.empty():",
         "    self.got ^= True",
         f"    self.got_data <<= {dec.format(x='fifo.pop()')}",
@@ -133,6 +137,7 @@ def render_fifo(cfg):
     if cfg["consumer"] == "peek":
         # the consumer looks at the oldest element with front() and then removes it with pop()
         cons = [
+            "self.cs_full <<= fifo.full()",
             "if self.c_take and not fifo.empty():",
             "    self.got ^= True",
             f"    self.got_data <<= {dec.format(x='fifo.front()')}",
@@ -280,10 +285,17 @@ def sim_fifo(cfg, design, sched, order_seed, order_mode):
             if key:
                 st_[key] += 1
         d.clock(inp)
-        o = {x: d.get(x) for x in ("att", "att_data", "got", "got_data", "v_empty", "v_full")}
+        o = {x: d.get(x) for x in ("att", "att_data", "got", "got_data", "v_empty", "v_full", "ps_empty", "cs_full")}
         pr = d.problems()
         if pr:
             return pr[0], dict(pr[1], clock=k, events=events[-6:]), st_, d
+        # the far side's flags may lag, but only in the safe direction: a sender that sees 'empty' has nothing stored, a receiver
+        # that sees 'full' has a full fifo (occupancy before this clock's push / pop)
+        if not rst_left and k > 0:
+            if p_step and o["ps_empty"] == 1 and occ0 != 0:
+                return "fifo", {"rule": "sender-sees-empty-while-elements-are-stored", "clock": k, "occupancy": occ0, "events": events[-6:]}, st_, d
+            if c_step and cfg["consumer"] != "receive" and o["cs_full"] == 1 and occ0 != cap:
+                return "fifo", {"rule": "receiver-sees-full-while-not-full", "clock": k, "occupancy": occ0, "capacity": cap, "events": events[-6:]}, st_, d
         if rst_left:
             st_["dropped_by_reset"] += len(q)
             q = []
